@@ -151,6 +151,13 @@ pub struct MapEng<'c, KD: Kind, const N: usize> {
     pub cur_target: usize,
     /// a container is known to be broken (len > capacity, iteration panics): never drop it
     pub poisoned: bool,
+    /// the current op exercised an overflow / capacity path (C03 scope)
+    pub op_overflow: bool,
+    pub ever_overflow: bool,
+    /// the current op went through an unsafe fast path (C18 scope)
+    pub op_unchecked: bool,
+    pub ever_unchecked: bool,
+    pub ever_cloned: bool,
 }
 
 #[inline]
@@ -187,6 +194,11 @@ impl<'c, KD: Kind, const N: usize> MapEng<'c, KD, N> {
             dup_paths: 0,
             cur_target: 0,
             poisoned: false,
+            op_overflow: false,
+            ever_overflow: false,
+            op_unchecked: false,
+            ever_unchecked: false,
+            ever_cloned: false,
         }
     }
 
@@ -264,6 +276,30 @@ impl<'c, KD: Kind, const N: usize> MapEng<'c, KD, N> {
         let univ = self.univ;
         let target = self.cur_target;
         let (state0, ident0) = (state, ident);
+        // Scope of the standing invariants: a property only owns them in ops (or cases) that its
+        // statement is about, so that e.g. a leak in drain() is not reported as a C03 violation.
+        let mut elig = PS::of(Prop::C02).and(Prop::C05);
+        if self.ever_faulted {
+            elig = elig.and(Prop::C04);
+        }
+        if self.op_overflow {
+            elig = elig.and(Prop::C03);
+            self.ever_overflow = true;
+        }
+        if self.op_unchecked {
+            elig = elig.and(Prop::C18);
+            self.ever_unchecked = true;
+        }
+        if self.cloned_at.is_some() || self.cx.cur_op == "clone" {
+            elig = elig.and(Prop::C15);
+            self.ever_cloned = true;
+        }
+        if liar && tl::liar_lies() > 0 {
+            elig = elig.and(Prop::C17);
+        }
+        let (p_well, p_ledger, p_canary) = (P_WELL.inter(elig), P_LEDGER.inter(elig), P_CANARY.inter(elig));
+        let p_all = p_well.union(p_ledger).union(state0);
+        let p_leak = PS::of(Prop::C02).and(Prop::C17).and(Prop::C03).and(Prop::C18).and(Prop::C15).inter(elig);
         let mut stored: Vec<u32> = Vec::new();
         for w in 0..2 {
             // the slot the op did not address must be untouched: independence of clones (C15)
@@ -273,23 +309,23 @@ impl<'c, KD: Kind, const N: usize> MapEng<'c, KD, N> {
             let obs = match Self::observe(&slot.c) {
                 Ok(o) => o,
                 Err(_) => {
-                    cx.chk(P_ALL, false, "broken-container", || "iterating the container panicked".into());
+                    cx.chk(p_all, false, "broken-container", || "iterating the container panicked".into());
                     self.poisoned = true;
                     return;
                 }
             };
             let len = slot.c.m.len();
             let cap = slot.c.m.capacity();
-            cx.chk(P_WELL, obs.len() == len, "len-vs-iter", || format!("len()={} but iteration yields {} entries", len, obs.len()));
-            cx.chk(P_WELL, slot.c.m.is_empty() == (len == 0), "is_empty", || format!("is_empty()={} with len()={}", slot.c.m.is_empty(), len));
-            cx.chk(P_WELL, len <= cap, "len-vs-capacity", || format!("len()={len} exceeds capacity()={cap}"));
+            cx.chk(p_well, obs.len() == len, "len-vs-iter", || format!("len()={} but iteration yields {} entries", len, obs.len()));
+            cx.chk(p_well, slot.c.m.is_empty() == (len == 0), "is_empty", || format!("is_empty()={} with len()={}", slot.c.m.is_empty(), len));
+            cx.chk(p_well, len <= cap, "len-vs-capacity", || format!("len()={len} exceeds capacity()={cap}"));
             if len > cap || !slot.c.intact() {
                 self.poisoned = true;
             }
             cx.chk(PS::of(Prop::C03), cap == N, "capacity", || format!("capacity()={cap} but N={N}"));
-            cx.chk(P_CANARY, slot.c.intact(), "canary", || "bytes outside the container were overwritten".into());
+            cx.chk(p_canary, slot.c.intact(), "canary", || "bytes outside the container were overwritten".into());
             for o in &obs {
-                cx.chk(P_LEDGER.and(Prop::C05), o.live, "dead-yield", || format!("iteration yields a dead or uninitialised element (key {})", o.raw));
+                cx.chk(p_ledger.and(Prop::C05), o.live, "dead-yield", || format!("iteration yields a dead or uninitialised element (key {})", o.raw));
                 cx.bump(S::addr_checks);
                 let inside = slot.c.contains(o.ka, std::mem::size_of::<KD::K>()) && slot.c.contains(o.va, std::mem::size_of::<KD::V>());
                 cx.chk(P_ADDR, inside, "addr", || "iter() yields a reference outside the container value".into());
@@ -298,7 +334,7 @@ impl<'c, KD: Kind, const N: usize> MapEng<'c, KD, N> {
                 // no object twice
                 for (i, a) in obs.iter().enumerate() {
                     for b in &obs[i + 1..] {
-                        cx.chk(P_LEDGER, a.kid != b.kid && a.vid != b.vid, "object-twice", || format!("one object is stored in two slots (key {})", a.raw));
+                        cx.chk(p_ledger, a.kid != b.kid && a.vid != b.vid, "object-twice", || format!("one object is stored in two slots (key {})", a.raw));
                     }
                 }
                 for o in &obs {
@@ -310,15 +346,15 @@ impl<'c, KD: Kind, const N: usize> MapEng<'c, KD, N> {
                 // key uniqueness and lookup agreement (C05)
                 for (i, a) in obs.iter().enumerate() {
                     for b in &obs[i + 1..] {
-                        cx.chk(P_WELL, a.raw != b.raw, "duplicate-key", || format!("key {} is yielded twice by iteration", a.raw));
+                        cx.chk(p_well, a.raw != b.raw, "duplicate-key", || format!("key {} is yielded twice by iteration", a.raw));
                     }
                 }
                 for o in &obs {
                     let qo = KD::qo(o.raw);
                     let got = tl::quiet(|| slot.c.m.get(KD::q(&qo)).map(|v| addr(v)));
-                    cx.chk(P_WELL, got == Ok(Some(o.va)), "yield-vs-get", || format!("get({}) does not return the value yielded with that key: {:?}", o.raw, got.as_ref().map(|x| x.is_some())));
+                    cx.chk(p_well, got == Ok(Some(o.va)), "yield-vs-get", || format!("get({}) does not return the value yielded with that key: {:?}", o.raw, got.as_ref().map(|x| x.is_some())));
                     let got = tl::quiet(|| slot.c.m.get_key_value(KD::q(&qo)).map(|(k, _)| addr(k)));
-                    cx.chk(P_WELL, got == Ok(Some(o.ka)), "yield-vs-get_key_value", || format!("get_key_value({}) does not return the yielded key", o.raw));
+                    cx.chk(p_well, got == Ok(Some(o.ka)), "yield-vs-get_key_value", || format!("get_key_value({}) does not return the yielded key", o.raw));
                 }
             }
             slot.order.clear();
@@ -395,7 +431,7 @@ impl<'c, KD: Kind, const N: usize> MapEng<'c, KD, N> {
         if KD::TRACKED {
             let cx = &mut *self.cx;
             if let Some(v) = tl::ledger_first_violation() {
-                cx.chk(P_LEDGER, false, "ledger", || v);
+                cx.chk(p_ledger, false, "ledger", || v);
             }
             if faulted {
                 let n = tl::ledger_excuse_unstored(&stored);
@@ -412,10 +448,12 @@ impl<'c, KD: Kind, const N: usize> MapEng<'c, KD, N> {
                         break;
                     }
                 }
-                cx.chk(PS::of(Prop::C02).and(Prop::C17).and(Prop::C03).and(Prop::C18).and(Prop::C15), ok, "leak", || msg);
+                cx.chk(p_leak, ok, "leak", || msg);
             }
         }
         self.faulted = false;
+        self.op_overflow = false;
+        self.op_unchecked = false;
     }
 
     pub fn step(&mut self, raw: [u8; 4]) {
@@ -437,6 +475,8 @@ impl<'c, KD: Kind, const N: usize> MapEng<'c, KD, N> {
     fn exec(&mut self, opi: usize, raw: [u8; 4], w: usize, use_unchecked: bool) {
         self.cx.cur_op = OP_NAMES[opi];
         self.cur_target = w;
+        self.op_overflow = false;
+        self.op_unchecked = false;
         let (a, b, c) = (raw[1], raw[2], raw[3] & 0x7f);
         let lied0 = tl::liar_lies();
         match opi {
@@ -500,17 +540,33 @@ impl<'c, KD: Kind, const N: usize> MapEng<'c, KD, N> {
                         self.cx.add(S::fault_leaks_excused, n as u64);
                     } else if !self.liar {
                         let n = p.name();
-                        self.cx.chk(P_ALL, false, "drop-panic", || format!("dropping the container panicked: {n}"));
+                        self.cx.chk(P_WELL.union(P_LEDGER), false, "drop-panic", || format!("dropping the container panicked: {n}"));
                     }
                 }
             }
         }
         if KD::TRACKED {
+            let mut elig = PS::of(Prop::C02).and(Prop::C05);
+            if self.ever_faulted {
+                elig = elig.and(Prop::C04);
+            }
+            if self.ever_overflow {
+                elig = elig.and(Prop::C03);
+            }
+            if self.ever_unchecked {
+                elig = elig.and(Prop::C18);
+            }
+            if self.ever_cloned {
+                elig = elig.and(Prop::C15);
+            }
+            if self.liar && tl::liar_lies() > 0 {
+                elig = elig.and(Prop::C17);
+            }
             if let Some(v) = tl::ledger_first_violation() {
-                self.cx.chk(P_LEDGER, false, "ledger", || v);
+                self.cx.chk(P_LEDGER.inter(elig), false, "ledger", || v);
             }
             let left = tl::ledger_live_strict();
-            self.cx.chk(PS::of(Prop::C02).and(Prop::C17).and(Prop::C03).and(Prop::C18).and(Prop::C15), left.is_empty(), "leak-at-end", || {
+            self.cx.chk(PS::of(Prop::C02).and(Prop::C17).and(Prop::C03).and(Prop::C18).and(Prop::C15).inter(elig), left.is_empty(), "leak-at-end", || {
                 format!("{} object(s) never destroyed, e.g. #{}", left.len(), left[0])
             });
         }
